@@ -18,7 +18,8 @@
 
 using sym::H;
 
-static char const* const NAMES[] = {"x", "a b", "", " lead", "trail ", "0 1"};
+static std::string const LONG_NAME(20000, 'n');   // longer than the stream buffer: the text is written in several pieces
+static char const* const NAMES[] = {"x", "a b", "", " lead", "trail ", "0 1", LONG_NAME.c_str()};
 
 template <typename T>
 struct world
